@@ -55,6 +55,28 @@ CLAIMED = {
              "Images: six writers x sizes 1..24 (40 thorough) incl. single row/column, input buffer of exactly w*h pixels in the shadowed "
              "arena, file decoded by an independent reader.",
              design="4 (C20)", note=TRUSTED + " std::ofstream / stdio file output is real (files under build/scratch). The image half has no schedule or fault dimension; it is run so the property is covered as a whole."),
+ "C14": dict(text="Single task against a simulated allocator layer (link-time wrapped posix_memalign/malloc under the library, ASan+UBSan "
+             "instrumented): seeded histories of alignedMalloc/alignedFree over boundary sizes (0 .. SIZE_MAX-63) x alignments 1..4096 with up to 8 "
+             "live blocks, and of AlignedVector<T> (|T| 1,4,12,16,64) operations against std::vector, with allocation failure injected at a "
+             "seeded allocation number; oracle: null-or-aligned, full-extent pattern write/read (ASan checks the extent), neighbour integrity "
+             "after every free, 64-byte data() after every reallocating step, model equality, bad_alloc exactly when an allocation failed, "
+             "length_error for max_size()+1. Second lane: the same histories fault-free against the real tbbmalloc back end.",
+             design="5 (C14)", note="Trusted: ASan/UBSan (gcc 12) for extent checking in the _mm_malloc lane; the tbbmalloc lane's memory is not ASan-tracked (only alignment, pattern and model checks apply there) and no failure can be injected inside tbbmalloc. Seeded sampling.",
+             technique="deterministic simulation with fault injection: single task over a simulated allocator device (seeded histories x injected allocation failures), reference-model oracle, decision-sequence shrinking, exact replay"),
+ "C15": dict(text="Single task: seeded typed value sequences written through BufferWriter / WriteSizeCalculator, carried over a byte channel that "
+             "is cut at a seeded offset (biased to value boundaries) into an exact-size heap buffer, and read back; plus write/reserve "
+             "histories against a FixedBufferWriter of capacity needed-1 / needed / needed+1 / random (the 'full device' fault). Oracle: "
+             "round-trip equality, end()/cursor accounting, calculator == bytes written, a value reaching past the cut throws runtime_error, "
+             "accept iff cursor+size <= capacity with no change on reject, views and accounting equal the model; ASan/UBSan on every access.",
+             design="5 (C15)", note="Trusted: ASan/UBSan (gcc 12) incl. libstdc++ container annotations for over-read detection. Seeded sampling.",
+             technique="deterministic simulation with fault injection: single task over a simulated byte channel / fixed-capacity device (seeded value sequences x cut offsets x capacities), reference-model oracle, shrinking, exact replay"),
+ "C16": dict(text="Single task against a simulated stdio file layer (link-time wrapped fopen/fseek/ftell/fread/fclose serving the file from an "
+             "exact-size heap buffer): seeded trees serialised with legal variation (quote styles, self-closing, whitespace, comments, header) "
+             "must come back equal; the same documents under device faults (short read at a seeded offset, flipped/dropped/duplicated/NUL "
+             "byte, open failure) and raw byte strings must yield a document or std::runtime_error, with no ASan/UBSan report, no crash and "
+             "termination within the wall budget.",
+             design="5 (C16)", note="Trusted: ASan/UBSan (gcc 12). ftell/fseek failures are not injected (the property speaks about byte sequences given as a file). Inputs <= 4 KiB, nesting <= 64. Seeded sampling.",
+             technique="deterministic simulation with fault injection: single task over a simulated file device (seeded documents x short reads / corrupted bytes / open failures), outcome and tree-equality oracle under ASan/UBSan, shrinking, exact replay"),
 }
 
 NA = {
